@@ -11,7 +11,7 @@ import glob, json, os, shutil, subprocess, time
 from concurrent.futures import ThreadPoolExecutor
 import vlib
 from vlib import log, Inconclusive, ROOT
-from props import RECORDS, T
+from props import RECORDS, CLOCKS, T
 
 CLAUSES = ["C11_Agreement", "C11_Repeat", "C11_ExportAgreement"]
 
@@ -49,6 +49,20 @@ class ReplicaCheck:
         log(f"[record] {len(recs)} histories recorded from drivers {sorted(set(done))}")
         return recs
 
+    def record_clock(self, work):
+        recdir = os.path.join(work, "clockrec")
+        os.makedirs(recdir, exist_ok=True)
+        t = time.time()
+        for c in CLOCKS:
+            vlib.build_harness(c["binary"])
+            t = time.time()
+            env = dict(os.environ, VERIF_RECORD_DIR=recdir)
+            p = subprocess.run([vlib.harness_bin(c["binary"]), c["mode"], "-out", os.path.join(work, "clock.ndjson"),
+                                "-cfg", c.get("cfg", "")], env=env, capture_output=True, text=True, timeout=300)
+            if p.returncode != 0:
+                raise Inconclusive(f"clock driver {c['binary']} failed: {p.stdout[-500:]} {p.stderr[-1500:]}")
+        return sorted(glob.glob(os.path.join(recdir, "*.rec"))), t
+
     def run(self, pid, tier, seed, work, replay=None, skip_mc=False, t0=None):
         t0 = t0 or time.time()
         if replay:
@@ -66,6 +80,9 @@ class ReplicaCheck:
                 raise Inconclusive(f"Replica.tla model checking failed: {err}")
             mc = {"states": d, "transitions": g, "configs": [{"cfg": "MC_Replica.cfg", "generated": g, "distinct": d}]}
             log(f"[mc] MC_Replica.cfg: {g} generated / {d} distinct, ok")
+        # clock scenario first: live histories whose chain time sits just inside a
+        # wall-clock threshold of the code; replayed at the very end (>= 25 s later)
+        clock_recs, t_clock = self.record_clock(work)
         recs = self.record(tier, work, seed)
         if not recs:
             raise Inconclusive("no recordings")
@@ -78,6 +95,7 @@ class ReplicaCheck:
         per_rec_random = {"quick": 2, "thorough": 6}[tier]
         max_recs = {"quick": 40, "thorough": 400}[tier]
         recs = recs[:max_recs]
+        nclock = len(clock_recs)
 
         def one(i_rec):
             i, rec = i_rec
@@ -102,6 +120,16 @@ class ReplicaCheck:
 
         with ThreadPoolExecutor(max_workers=max(1, vlib.NCPU - 2)) as ex:
             traces = list(ex.map(one, list(enumerate(recs))))
+        if clock_recs:
+            wait = 25 - (time.time() - t_clock)
+            if wait > 0:
+                time.sleep(wait)
+            for j, rec in enumerate(clock_recs):
+                tr = os.path.join(work, f"rt-clock-{j}.ndjson")
+                vlib.run_harness("replica", "random", tr, seed=seed, n=1, cfg=f"rec={rec},proc=p1.")
+                traces.append(tr)
+            log(f"[clock] {nclock} live history(ies) with chain time next to a wall-clock threshold replayed "
+                f"{time.time()-t_clock:.0f}s after the live run")
         allf = os.path.join(work, "all.ndjson")
         with open(allf, "w") as out:
             for t in traces:
@@ -123,7 +151,7 @@ class ReplicaCheck:
                 real.append((ln, c))
         cov.update({"states": max(1, mc["states"]), "transitions": max(1, mc["transitions"]), "mc_configs": mc["configs"],
                     "exhaustive": True, "traces_validated_against_impl": ntr, "events_validated": res["lines"],
-                    "recordings": len(recs), "tlc_generated_schedules": nsch,
+                    "recordings": len(recs), "clock_histories": nclock, "tlc_generated_schedules": nsch,
                     "recorded_drivers": sorted({os.path.basename(r).split("-")[1] for r in recs}),
                     "clause_antecedents": res["exercised"], "clauses": CLAUSES,
                     "samples": vlib.sample_lines(allf, 3)})
@@ -136,7 +164,7 @@ class ReplicaCheck:
         missing = [r for r in ("exec", "restart", "export", "second_replica", "txs") if res["exercised"].get(r, 0) == 0]
         if real:
             ln, clause = real[0]
-            path = self.save_replay(pid, allf, ln, recs, tier, seed, clause, lines)
+            path = self.save_replay(pid, allf, ln, recs + clock_recs, tier, seed, clause, lines)
             vlib.write_evidence(pid, tier, seed, cov, wall, len(real), assumptions)
             log(f"clause {clause} failed at trace line {ln}: {describe(lines, ln)}")
             print(f"VIOLATION property={pid} replay={path}", flush=True)
